@@ -1,0 +1,14 @@
+//go:build verif
+
+package smobserver
+
+import (
+	abcitypes "github.com/tendermint/tendermint/abci/types"
+
+	"github.com/shutter-network/rolling-shutter/rolling-shutter/keyper/shutterevents"
+)
+
+// VerifMakeEvents exposes makeEvents (decode the events of one block, skipping malformed ones).
+func VerifMakeEvents(height int64, events []abcitypes.Event) []shutterevents.IEvent {
+	return makeEvents(height, events)
+}
